@@ -109,6 +109,8 @@ type Vault struct {
 	UnwrapWrong  bool // return a different 32-byte key
 	UnwrapShort  bool // return a short key
 	UnwrapErr    bool // return an error
+	UnwrapWiped  bool // return an error together with the output buffer, wiped (32 zero bytes)
+	WrapAppend   int  // Wrap builds its result by appending this many bytes to the slice it was given (1..7)
 	Pad          int  // extra bytes a wrapped key carries beyond the 32 key bytes (AES-KW: 8, RSA-OAEP: modulus size - 32)
 	YieldInCalls bool // let the scheduler switch inside the callbacks (C08)
 	FileKey      []byte
@@ -133,6 +135,15 @@ func (v *Vault) Wrap(plaintextKey []byte, algorithm, keyName string, nonce []byt
 		v.S.Yield("vault.wrap")
 	}
 	v.FileKey = append([]byte(nil), plaintextKey...)
+	if v.WrapAppend > 0 {
+		// a wrapper that frames the key in place: append(key, checksum...) writes into whatever spare
+		// capacity the slice it was handed has
+		framed := plaintextKey
+		for i := 0; i < v.WrapAppend; i++ {
+			framed = append(framed, byte(0xc0+i))
+		}
+		_ = framed
+	}
 	w := make([]byte, len(plaintextKey))
 	for i, b := range plaintextKey {
 		w[i] = b ^ mask(keyName)
@@ -156,6 +167,9 @@ func (v *Vault) Unwrapper(encKey string) enc.UnwrapKeyFn {
 		}
 		if v.UnwrapErr {
 			return nil, errors.New("vault: key not found")
+		}
+		if v.UnwrapWiped {
+			return make([]byte, 32), errors.New("vault: integrity check failed")
 		}
 		if len(wrappedKey) > 32 {
 			wrappedKey = wrappedKey[:32] // the padding of a longer wrapping carries no key material
